@@ -62,8 +62,10 @@ META = {
 }
 
 
-def _mk_update(pid: int, i: int, size: int) -> OperationUpdate:
-    return OperationUpdate.create_step_succeed(OperationIdentifier(f"p{pid}-{i}", None, "n"), payload="x" * size)
+def _mk_update(pid: int, i: int, size: int, ch: str = "x") -> OperationUpdate:
+    # non-ASCII payloads: `size` is the number of bytes the payload occupies in the (escaped) JSON that goes on the wire
+    per = len(json.dumps(ch)) - 2
+    return OperationUpdate.create_step_succeed(OperationIdentifier(f"p{pid}-{i}", None, "n"), payload=ch * (size // per))
 
 
 def _size(u) -> int:
@@ -155,7 +157,7 @@ def run_scenario(scn: dict, chooser, *, line_mode=False):
             upd = None
             if kind in ("sync", "async"):
                 uid = f"p{me}-{idx}"
-                upd = _mk_update(me, idx, op[1])
+                upd = _mk_update(me, idx, op[1], op[2] if len(op) > 2 else "x")
             start = tick()
             if uid is not None:
                 calls[uid] = {"start": start, "end": None, "sync": sync, "producer": me, "idx": idx, "size": _size(upd)}
@@ -301,6 +303,10 @@ def scenarios(draw):
         st.tuples(st.just("sleep"), st.sampled_from([0.0, 0.05, 0.15, 0.6, 1.5])).map(list),
     )
     scripts = draw(st.lists(st.lists(op, min_size=1, max_size=5), min_size=1, max_size=4))
+    if draw(st.integers(0, 3)) == 0:
+        # payload text outside ASCII: what counts is the size of the escaped JSON that is sent
+        ch = draw(st.sampled_from(["\u00e9", "\u20ac", "\U0001f600"]))
+        scripts = [[(o + [ch] if o[0] in ("sync", "async") else o) for o in sc] for sc in scripts]
     mode = draw(st.sampled_from(["walk", "walk", "pct", "seq", "seq"]))
     sd = draw(st.integers(0, 2**32))
     if mode == "walk":
